@@ -191,13 +191,16 @@ theorem encodeTriple_once {exc : PyErr} {es es' : EncState} {s p ob : Term} {row
     (inv : WInv es.te) (h : encodeTriple exc es [s, p, ob] = (es', .ok rows)) {acc : List Row} {m : Nat}
     (ho : NOnce es.te acc (([s, p, ob].flatMap Term.iris).length + m)) :
     NOnce es'.te (acc ++ rows) m := by
+  obtain ⟨_, st1, hb, rfl⟩ := encodeTriple_ok_inv h
+  clear h
+  have h := hb
   rcases h1 : encSlot TermEnc.spo es.te.startRow es.rep.s s with ⟨te1, rs, (e | ⟨r1, ws⟩)⟩
-  · simp [encodeTriple, h1] at h
+  · simp [encodeTripleBody, h1] at h
   rcases h2 : encSlot TermEnc.spo te1 es.rep.p p with ⟨te2, rp, (e | ⟨r2, wp⟩)⟩
-  · simp [encodeTriple, h1, h2] at h
+  · simp [encodeTripleBody, h1, h2] at h
   rcases h3 : encSlot TermEnc.spo te2 es.rep.o ob with ⟨te3, ro, (e | ⟨r3, wo⟩)⟩
-  · simp [encodeTriple, h1, h2, h3] at h
-  simp only [encodeTriple, h1, h2, h3, Prod.mk.injEq, Except.ok.injEq] at h
+  · simp [encodeTripleBody, h1, h2, h3] at h
+  simp only [encodeTripleBody, h1, h2, h3, Prod.mk.injEq, Except.ok.injEq] at h
   obtain ⟨rfl, rfl⟩ := h
   have ho1 : NOnce es.te acc (s.iris.length + (p.iris.length + (ob.iris.length + m))) := by
     simpa [Nat.add_assoc] using ho
